@@ -100,8 +100,16 @@ func Paths(t Tree, prefix string, leavesOnly bool, out *[]string) {
 		if prefix != "" {
 			k = prefix + "." + e.K
 		}
-		if !leavesOnly || (e.V.T != "m" && e.V.T != "l") {
+		if !leavesOnly || (e.V.T != "m" && e.V.T != "l" && e.V.T != "x") {
 			*out = append(*out, k)
+		}
+		if e.V.T == "x" && !leavesOnly {
+			// a dotted key cannot walk through a map with non-string keys: these must not exist
+			for _, xe := range e.V.M {
+				if len(xe.K) > 2 {
+					*out = append(*out, k+"."+xe.K[2:])
+				}
+			}
 		}
 		Paths(e.V, k, leavesOnly, out)
 	}
